@@ -185,7 +185,7 @@ func (g *rig) judge(q *rq) bool {
 	g.mu.Unlock()
 	if inv != nil {
 		ox["invalidated_by"] = inv.spec()
-		g.viol("stale-hit|after-invalidation"+sfx, "a hit serves a response that was cached before CacheInvalidator returned true for this method+key", ox)
+		g.viol("stale-hit|after-invalidation"+sfx, "a hit serves a response that was cached before a completed request for which CacheInvalidator returns true for this method+key", ox)
 	}
 	// freshness: expiry, unambiguous instants only (second-resolution clock of the middleware):
 	// more than Expiration + 1 s after the entry was stored
